@@ -61,6 +61,9 @@ def track_array(v, a=None, b=None):
 	return numpy.array([numpy.nan if x is None else x for x in seg], dtype="float64")
 
 
+WIDE_OFF = 1.0 / 3.0      # float64 value without a float32 representation
+
+
 def track_plus_one(v):
 	if isinstance(v, dict):
 		return {"length": v["length"], "rle": [[s_, e_, None if val is None else val + 1.0]
@@ -256,8 +259,15 @@ class C16(runner.Check):
 				"extra_cols": b.chance(0.4), "chroms_as": b.choice(["list", "tuple"]),
 				"verbose": b.chance(0.15), "bed_crlf": b.chance(0.2), "fa_desc": b.chance(0.3),
 				"bed_trailing_blank": b.chance(0.2)})
+		# in-memory tracks need not be float32: a "wide" world holds float64 values
+		# that no float32 represents (every value + 1/3) and uses dict tracks only
+		wide = bool((signals or in_signals) and S("wide").chance(0.12))
+		if wide:
+			for c_ in combos:
+				c_["sig"] = c_["insig"] = "dict"
 		return {"leg": "loci", "seed": seed, "chroms": chroms, "signals": signals,
 			"in_signals": in_signals, "sets": sets, "kw": kw, "combos": combos,
+			"wide": wide,
 			"single_set_unwrapped": len(sets) == 1 and r.chance(0.5)}
 
 	def _gen_bigcov(self, r, S, seed):
@@ -490,6 +500,8 @@ class C16(runner.Check):
 		hw_in, hw_out = in_w // 2, (out_w // 2 if have_sig else 0)
 		cands = []
 		def arr(track, name, a, b):
+			if case.get("wide"):
+				return numpy.nan_to_num(track_array(track[name], a, b) + WIDE_OFF)
 			return numpy.nan_to_num(track_array(track[name], a, b)).astype("float32")
 		for _, (name, s, e) in order:
 			seq = chrom[name]
@@ -541,7 +553,10 @@ class C16(runner.Check):
 				return None
 			outl = []
 			for ti, t in enumerate(ts):
-				arrs = {n: track_array(v).astype("float32") for n, v in t.items()}
+				if case.get("wide"):
+					arrs = {n: track_array(v) + WIDE_OFF for n, v in t.items()}
+				else:
+					arrs = {n: track_array(v).astype("float32") for n, v in t.items()}
 				if kind == "bigwig":
 					p = os.path.join(scratch, "%s.%s%d.bw" % (tag, label, ti))
 					genome.write_bigwig(p, sizes, arrs)
@@ -591,6 +606,8 @@ class C16(runner.Check):
 			out.bump("world.no_locus_expected")
 		out.bump("model.definite", n_def)
 		out.bump("model.ambiguous_boundary", len(cands) - n_def)
+		if case.get("wide"):
+			out.bump("world.float64_dict_tracks_not_float32_exact")
 		ran = 0
 		for ci, combo in enumerate(case["combos"]):
 			tag = "c16_%d_%d_%d" % (os.getpid(), case.get("seed", 0), ci)
@@ -750,10 +767,10 @@ class C16(runner.Check):
 			if seqs[i].shape != c["seq"].shape or not numpy.array_equal(seqs[i], c["seq"]):
 				return "seq"
 			if sig is not None and (sig[i].shape != c["sig"].shape or
-					sig[i].tobytes() != c["sig"].astype(sig.dtype).tobytes()):
+					sig[i].astype("float64").tobytes() != c["sig"].astype("float64").tobytes()):
 				return "signal"
 			if insig is not None and (insig[i].shape != c["insig"].shape or
-					insig[i].tobytes() != c["insig"].astype(insig.dtype).tobytes()):
+					insig[i].astype("float64").tobytes() != c["insig"].astype("float64").tobytes()):
 				return "in_signal"
 			return None
 		# rows must equal, in order, a subsequence of the candidates that contains
